@@ -1355,6 +1355,62 @@ def opc3c_prologue_eval(ctx: Ctx) -> None:
     ctx.R.ok("OPC-3c", f"{n_ok} (interpreter, layout, EXTENDED_ARG count, leading context) cases: the `as` target is decoded from the first instruction after the prologue", "engine MINI over FACTS prologues")
 
 
+def opc13_exception_path_exit(ctx: Ctx) -> None:
+    """OPC-13 the exception-path exit: a frame whose position is the WITH_EXCEPT_START of a with-block's handler is exiting that
+    block, and the block is identified by the handler's first instruction.  FACTS (with_handler_prefix): the handler starts
+    with WITH_EXCEPT_START itself on 3.9 / 3.10 and with PUSH_EXC_INFO, WITH_EXCEPT_START on 3.11+.  So under each interpreter
+    a positive test `code[offs] == op['WITH_EXCEPT_START']` guards `return ExitingContext(..., cleanup_offset=offs)` after
+    stepping back exactly over the prefix (0 / 2 bytes)"""
+    mod = ctx.P.mod("_lowlevel")
+    fn = mod.fn("currently_exiting_context")
+    reach = ctx.reach(mod)
+    for v in sorted(ctx.V.all, key=lambda s_: tuple(map(int, s_.split(".")))):
+        pref = ctx.F["interp"][v]["with_handler_prefix"]
+        if not pref or any(p_ != pref[0] for p_ in pref):
+            ctx.R.undecided("OPC-13", f"{v}: with-handler prefix not unique in the facts: {pref}")
+            continue
+        want_back = 2 * (len(pref[0]) - 1)
+        ifs = []
+        for n in ast.walk(fn):
+            if isinstance(n, ast.If) and v in reach.live.get(id(n), frozenset()):
+                for cc in ast.walk(n.test):
+                    if isinstance(cc, ast.Compare) and len(cc.ops) == 1 and "WITH_EXCEPT_START" in [x.slice.value for x in ast.walk(cc) if isinstance(x, ast.Subscript) and isinstance(x.slice, ast.Constant) and isinstance(x.slice.value, str)] \
+                            and norm(_unalias(mod, cc).left) == "code[offs]":
+                        ifs.append((n, cc))
+        if not ifs:
+            ctx.R.undecided("OPC-13", f"{v}: no test of code[offs] against WITH_EXCEPT_START is reachable (see OPC-5)")
+            continue
+        for n, cc in ifs:
+            neg = isinstance(cc.ops[0], (ast.NotEq, ast.NotIn)) or any(isinstance(u_, ast.UnaryOp) and isinstance(u_.op, ast.Not) and cc in list(ast.walk(u_)) for u_ in ast.walk(n.test))
+            rets = [r for r in n.body if isinstance(r, ast.Return) and isinstance(r.value, ast.Call) and norm(r.value.func) == "ExitingContext"]
+            if neg and rets:
+                ctx.R.fail("OPC-13", mod, n, f"CPython {v}: the exception-path exit is reported for every position that is NOT a WITH_EXCEPT_START, and not for the one that is", construct=f"{v}: WITH_EXCEPT_START test inverted")
+                continue
+            if neg:
+                ctx.R.undecided("OPC-13", f"{v}: negative WITH_EXCEPT_START test `{norm(n.test)[:50]}`")
+                continue
+            if not rets:
+                ctx.R.fail("OPC-13", mod, n, f"CPython {v}: at a WITH_EXCEPT_START the function no longer returns the exiting context: it goes on to match the normal-path call sequence, which is not there, "
+                           "and a manager whose __exit__ runs because of an exception is reported as not exiting", construct=f"{v}: no return at WITH_EXCEPT_START")
+                continue
+            r = rets[0]
+            kw = {k.arg: norm(k.value) for k in r.value.keywords}
+            back = 0
+            okshape = True
+            for st in n.body[:n.body.index(r)]:
+                if isinstance(st, ast.AugAssign) and norm(st.target) == "offs" and isinstance(st.op, ast.Sub) and isinstance(st.value, ast.Constant):
+                    back += st.value.value
+                elif isinstance(st, ast.AugAssign) and norm(st.target) == "offs":
+                    okshape = False
+            if kw.get("cleanup_offset") != "offs" or not okshape:
+                ctx.R.undecided("OPC-13", f"{v}: cleanup_offset is `{kw.get('cleanup_offset')}`")
+            elif back != want_back:
+                ctx.R.fail("OPC-13", mod, r, f"CPython {v}: the with-handler begins with {pref[0]}, so its first instruction is {want_back} bytes before the WITH_EXCEPT_START; the function steps back {back}: "
+                           "the offset returned is not a key of the with-block table and the exiting manager is lost (KeyError -> fallback)", construct=f"{v}: steps back {back} instead of {want_back}")
+            else:
+                ctx.R.ok("OPC-13", f"{v}: WITH_EXCEPT_START -> ExitingContext(cleanup_offset=offs - {back})", f"handler prefix {pref[0]}")
+
+
 def opc11_step_semantics(ctx: Ctx) -> None:
     """OPC-11 each case of the `as`-target decoder has the stack effect of the opcode it stands for, operand order included.
     The loop body of next_target is evaluated abstractly (engine MINI: symbolic operands on the decoder's list, the integers
@@ -1617,6 +1673,29 @@ def opc6_exit_templates(ctx: Ctx) -> None:
                         else:
                             ctx.R.fail("OPC-6", mod, s0, f"CPython {v}: from the CALL the instruction before the window is {back} bytes back ({t[c - back // 2] if c - back // 2 >= 0 else '?'}); the matcher does `{norm(s0)}`",
                                        construct=f"{v}: step over window {norm(s0)}")
+                    else:
+                        moves = [x for x in after if isinstance(x, ast.Assign) and any(norm(t_) == "offs" for t_ in x.targets)] \
+                            + [x for x in after if isinstance(x, ast.Expr) and isinstance(x.value, ast.Call) and any(norm(a_) == "offs" for a_ in x.value.args)]
+                        if moves:
+                            ctx.R.undecided("OPC-6", f"{v}: the step back over the window is not a plain `offs -= n`")
+                        else:
+                            ctx.R.fail("OPC-6", mod, st, f"CPython {v}: after matching the window the position is never moved back over it: the POP_BLOCK test that follows looks at the call itself "
+                                       "and every normal-path exit is reported as 'not exiting'", construct=f"{v}: no step back over the window")
+                    # every skip on the way back must *skip what it tests for*: `while/if code[offs] == op[X]: offs -= 2`
+                    for x in after:
+                        if isinstance(x, (ast.While, ast.If)) and any(isinstance(y, ast.AugAssign) and norm(y.target) == "offs" for y in x.body) and opnames_in(x.test):
+                            eqs = [cc for cc in ast.walk(x.test) if isinstance(cc, ast.Compare) and opnames_in(cc) and "code[offs]" in norm(_unalias(mod, cc))]
+                            neg = [cc for cc in eqs if isinstance(cc.ops[0], (ast.NotEq, ast.NotIn))]
+                            inverted = any(isinstance(u_, ast.UnaryOp) and isinstance(u_.op, ast.Not) and any(cc in list(ast.walk(u_)) for cc in eqs) for u_ in ast.walk(x.test))
+                            stepb = [y for y in x.body if isinstance(y, ast.AugAssign) and norm(y.target) == "offs"]
+                            if neg or inverted:
+                                ctx.R.fail("OPC-6", mod, x, f"CPython {v}: `{norm(x.test)[:60]}` skips backwards over everything that is NOT {opnames_in(x.test)}: the walk back to POP_BLOCK runs past it",
+                                           construct=f"{v}: inverted skip of {opnames_in(x.test)}")
+                            elif stepb and not (isinstance(stepb[0].op, ast.Sub) and isinstance(stepb[0].value, ast.Constant) and stepb[0].value.value == 2):
+                                ctx.R.fail("OPC-6", mod, stepb[0], f"CPython {v}: skipping one {opnames_in(x.test)[0]} instruction backwards is `offs -= 2`; the matcher does `{norm(stepb[0])}`",
+                                           construct=f"{v}: skip step {norm(stepb[0])}")
+                            else:
+                                ctx.R.ok("OPC-6", f"{v}: skips {opnames_in(x.test)} one instruction at a time")
                     # what can sit between POP_BLOCK and the window on jump-out paths must be skipped
                     tested = set()
                     for x in after:
